@@ -148,7 +148,17 @@ def build_case(rng, root):
             else:
                 kind = rng.choice(('lua', 'lua', 'p8', 'p8', 'png'))
                 sub = rng.choice(('', '', 'lib/', 'lib/deep/'))
-                name = '%s%s%d' % (sub, rng.choice(('inc', 'mod_', 'T', 'cart.p8.v', 'tools.lua.x', 'a.p8.png.b')), inc_i)
+                stem = rng.choice(('inc', 'mod_', 'T', 'cart.p8.v', 'tools.lua.x', 'a.p8.png.b', 'lvl[1]_', 'q?x', 'st*r', 'set{a,b}'))
+                name = '%s%s%d' % (sub, stem, inc_i)
+                if stem in ('lvl[1]_', 'q?x', 'st*r', 'set{a,b}'):
+                    # characters that mean something to file-name patterns are characters of the name; a file such a pattern would
+                    # match lies next to it
+                    feats.add('name_with_pattern_characters')
+                    twin = {'lvl[1]_': 'lvl1_', 'q?x': 'qzx', 'st*r': 'stair', 'set{a,b}': 'seta'}[stem]
+                    for e2 in ('.lua', '.p8'):
+                        tp = os.path.join(cartdir, '%s%s%d%s' % (sub, twin, inc_i, e2))
+                        os.makedirs(os.path.dirname(tp), exist_ok=True)
+                        put(tp, b'matched_by_a_pattern=1\n' if e2 == '.lua' else rc.write_p8(carts.random_regions(rng, 'zero')[0], b'matched_by_a_pattern=1\n', version=8))
                 if '.p8' in name or '.lua' in name:
                     feats.add('name_with_embedded_extension')
                 tabs = rng.choice((0, 0, 1, 3, 11, 16)) if kind != 'lua' else 0
@@ -319,6 +329,34 @@ def build_case(rng, root):
     return cart, exp_bytes, glued, feats, desc, missing, code_section, tree
 
 
+def run_self_include(ctx, rng, root, k):
+    """A cart that splices one of its own editor tabs: the cart itself is a cart file like any other."""
+    cartdir = os.path.join(root, 'selfinc%d' % k)
+    os.makedirs(cartdir)
+    tabs = [carts.simple_lua(rng, 40) for _ in range(3)]
+    sel = k % 3
+    own = [b'a=1\n', b'#include kit.p8:%d\n' % sel, b'b=2\n']
+    if sel == 0:
+        # (tab 0 holds the directive itself: inside an included cart it stays a line of text)
+        tabs[0] = b''.join(own)
+        code = b'-->8\n'.join(tabs)
+        stored = lines_of(code)
+        expected = [own[0]] + tab_lines(stored, 0) + [own[2], b'-->8\n'] + lines_of(tabs[1]) + [b'-->8\n'] + lines_of(tabs[2])
+    else:
+        code = b''.join(own) + b'-->8\n' + tabs[1] + b'-->8\n' + tabs[2]
+        stored = lines_of(code)
+        expected = [own[0]] + tab_lines(stored, sel) + [own[2], b'-->8\n'] + lines_of(tabs[1]) + [b'-->8\n'] + lines_of(tabs[2])
+    cart = os.path.join(cartdir, 'kit.p8')
+    data = rc.write_p8(carts.random_regions(rng, 'sparse')[0], code, version=8)
+    with open(cart, 'wb') as fh:
+        fh.write(data)
+    case = {'cart': os.path.relpath(cart, root), 'targets': ['kit.p8:%d (the cart itself)' % sel], 'tree': {os.path.relpath(cart, root): data},
+            'expected': [b''.join(expected)], 'glued': [], 'missing': False, 'via_symlink': False, 'open_as': 'absolute'}
+    ctx.case((code, 'self', sel), nontrivial=True)
+    ctx.feature('cart_includes_its_own_tab')
+    judge(ctx, cart, case)
+
+
 def run_case(ctx, rng, root):
     cart, exp, glued, feats, desc, missing, code_section, tree = build_case(rng, root)
     case = {'cart': os.path.relpath(cart, root), 'targets': desc, 'tree': tree, 'expected': exp, 'glued': glued, 'missing': missing,
@@ -396,6 +434,8 @@ def run_shard(spec, ctx):
         root = tempfile.mkdtemp(prefix='vf-c20-')
         try:
             run_case(ctx, rng, root)
+            if i % 12 == 5:
+                run_self_include(ctx, rng, root, i // 12)
         finally:
             shutil.rmtree(root, ignore_errors=True)
     ctx.sample({'cart_code': b'x=1\n#include lib/inc1.p8:2\ny=2\n', 'note': 'shape of a generated including cart'})
@@ -423,7 +463,7 @@ def gates(m, tier):
               'directive_whitespace_variant', 'missing_target', 'png_raw', 'png_compressed', 'includes_0', 'same_target_twice', 'cart_inside_carts_folder', 'name_with_embedded_extension', 'include_inside_block_comment',
               'cart_opened_through_symlinked_directory', 'lua_target_with_high_bytes', 'tab_selector_two_digits', 'cart_opened_as_bare_name_in_cwd',
               'cart_opened_as_dot_slash_in_cwd', 'cart_opened_as_relative_from_parent', 'line_mentioning_include', 'mentioned_file_exists', 'blank_own_lines', 'selector_after_lua_name', 'included_p8_no_lua_section', 'included_p8_empty_lua_section', 'included_p8_in_variant_shape', 'missing_target_with_sibling_of_other_format',
-              'name_not_in_normal_form', 'lua_target_that_is_a_fragment:function_opened', 'lua_target_that_is_a_fragment:long_string_text'):
+              'name_not_in_normal_form', 'name_with_pattern_characters', 'cart_includes_its_own_tab', 'lua_target_that_is_a_fragment:function_opened', 'lua_target_that_is_a_fragment:long_string_text'):
         if f.get(k, 0) < 5:
             missed.append('%s seen %d times' % (k, f.get(k, 0)))
     if mon.get('splices_compared', 0) < 200:
